@@ -109,6 +109,9 @@ func VH_stree_CursorLookup() {
 	var ref []vKT
 	vFill(root, &ref)
 	t := vMkTree(root, 1000, n, n)
+	if vCase("cmp") == 1 {
+		t.compare = vCmpKTWide
+	}
 	nv := vNavOf(root)
 	x := vKT{vOrd("x"), -3}
 	c := t.Cursor(x)
@@ -170,6 +173,48 @@ func VH_stree_CursorMoves() {
 		nv.check(k2, nv.move(cur, m), "clone after its own move")
 		nv.check(c, cur, "original after moving its clone")
 	}
+}
+
+// VH_stree_CursorDeep: a spine deep enough that cursor paths have spare capacity:
+// clones taken after moving up must still be independent of the original.
+func VH_stree_CursorDeep() {
+	n := vCase("n")
+	root := vSpine(n, vCase("kind"))
+	var ref []vKT
+	vFill(root, &ref)
+	t := vMkTree(root, 1000, len(ref), len(ref))
+	nv := vNavOf(root)
+	// the deepest node
+	deep := root
+	for deep.left != nil || deep.right != nil {
+		if vHeight(deep.left) >= vHeight(deep.right) {
+			deep = deep.left
+		} else {
+			deep = deep.right
+		}
+	}
+	c := t.Cursor(deep.X)
+	cur := deep
+	nv.check(c, cur, "deepest node")
+	ups := vChoice("ups", n-1)
+	for i := 0; i < ups; i++ {
+		c.Up()
+		cur = nv.move(cur, 4)
+	}
+	nv.check(c, cur, "after moving up")
+	k := c.Clone()
+	// move both in (possibly) different directions, twice, re-checking both each time
+	kc := cur
+	for s := 0; s < vCase("rounds"); s++ {
+		m1, m2 := vChoice("orig-move", 7), vChoice("clone-move", 7)
+		vMoveCursor(c, m1)
+		cur = nv.move(cur, m1)
+		vMoveCursor(k, m2)
+		kc = nv.move(kc, m2)
+		nv.check(c, cur, "original after both moved")
+		nv.check(k, kc, "clone after both moved")
+	}
+	vCover("cursor-deep")
 }
 
 // VH_stree_CursorNil: nil and invalid cursors are harmless.
